@@ -185,6 +185,86 @@ const CYCLES: [&str; 6] = [
     "M DEFINITIONS ::= BEGIN\nv1 INTEGER ::= v2\nv2 INTEGER ::= v1\nT ::= INTEGER (0..v1)\nS ::= a < S\nEND\n",
 ];
 
+/// Reference cycles, systematically: kind of reference × cycle length 1..3 × the construct the reference stands
+/// in × names of the members sorting upwards / downwards × entered from a member or from an outside definition
+/// whose name sorts before / after the members (the linker walks names in order and guards differ per entry).
+fn cycle_family() -> Vec<String> {
+    let mut out = Vec::new();
+    let name_sets: [[&str; 3]; 2] = [["Ca", "Cb", "Cc"], ["Cz", "Cy", "Cx"]];
+    // COMPONENTS OF
+    let cof_wrappers: [&str; 6] = [
+        "SEQUENCE { m@ BOOLEAN, COMPONENTS OF @N }",
+        "SEQUENCE { w SEQUENCE OF SEQUENCE { m@ BOOLEAN, COMPONENTS OF @N } }",
+        "SEQUENCE { w SET OF SET { m@ BOOLEAN, COMPONENTS OF @N } }",
+        "SEQUENCE { w SEQUENCE { m@ BOOLEAN, COMPONENTS OF @N } }",
+        "SEQUENCE { w CHOICE { c SEQUENCE { m@ BOOLEAN, COMPONENTS OF @N }, d NULL } }",
+        "SET { m@ BOOLEAN, ..., COMPONENTS OF @N }",
+    ];
+    // type references
+    let ref_wrappers: [&str; 6] = [
+        "@N",
+        "[3] @N",
+        "@N (WITH COMPONENTS { ... })",
+        "SEQUENCE { COMPONENTS OF @N, m@ NULL }",
+        "SEQUENCE { f a < @N }",
+        "a < @N",
+    ];
+    for names in &name_sets {
+        for len in 1..=3usize {
+            for (wi, w) in cof_wrappers.iter().enumerate().map(|(i, w)| (i, *w)).chain(ref_wrappers.iter().enumerate().map(|(i, w)| (i + 10, *w))) {
+                let mut body = String::new();
+                for i in 0..len {
+                    let next = names[(i + 1) % len];
+                    body.push_str(&format!("{} ::= {}\n", names[i], w.replace("@N", next).replace("m@", &format!("m{i}"))));
+                }
+                for entry in 0..3 {
+                    let extra = match entry {
+                        0 => String::new(),
+                        1 => format!("Aa ::= SEQUENCE {{ e BOOLEAN, COMPONENTS OF {} }}\naav {} ::= {{ }}\n", names[0], names[0]),
+                        _ => format!("Zz ::= SEQUENCE {{ e BOOLEAN, COMPONENTS OF {} }}\nZl ::= SEQUENCE OF {}\nzzv {} ::= 3\n", names[0], names[len - 1], names[0]),
+                    };
+                    out.push(format!("Cyc-Mod DEFINITIONS AUTOMATIC TAGS ::= BEGIN\n{body}{extra}END\n"));
+                    let _ = wi;
+                }
+            }
+            // value references
+            let vn: Vec<String> = names.iter().map(|n| n.to_lowercase()).collect();
+            let mut body = String::new();
+            for i in 0..len {
+                body.push_str(&format!("{} INTEGER ::= {}\n", vn[i], vn[(i + 1) % len]));
+            }
+            for user in [
+                "Aa ::= INTEGER (0..@V)",
+                "Zz ::= SEQUENCE { f INTEGER DEFAULT @V }",
+                "Zz ::= OCTET STRING (SIZE (@V..@V))",
+                "Aa ::= SEQUENCE (SIZE (1..@V)) OF BOOLEAN",
+                "zz INTEGER ::= @V",
+                "Aa ::= INTEGER { top(@V) } (0..top)",
+            ] {
+                out.push(format!("Cyc-Mod DEFINITIONS ::= BEGIN\n{body}{}\nEND\n", user.replace("@V", &vn[0])));
+            }
+            // object sets and objects
+            let sn: Vec<String> = names.iter().map(|n| format!("Set-{n}")).collect();
+            let mut body = String::from("C1 ::= CLASS { &id INTEGER UNIQUE, &Type OPTIONAL } WITH SYNTAX { ID &id [TYPE &Type] }\no1 C1 ::= { ID 1 TYPE BOOLEAN }\n");
+            for i in 0..len {
+                body.push_str(&format!("{} C1 ::= {{ o1 | {} }}\n", sn[i], sn[(i + 1) % len]));
+            }
+            for user in ["", "Aa ::= SEQUENCE { id C1.&id ({@S}), v C1.&Type ({@S}{@id}) }", "Zz ::= SEQUENCE { id C1.&id ({@S}), v C1.&Type ({@S}{@id}) }"] {
+                out.push(format!("Cyc-Mod DEFINITIONS AUTOMATIC TAGS ::= BEGIN\n{body}{}\nEND\n", user.replace("@S", &sn[0])));
+            }
+            // parameterized templates
+            let mut body = String::new();
+            for i in 0..len {
+                body.push_str(&format!("{} {{ T }} ::= SEQUENCE {{ x{i} {} {{ T }}, t T }}\n", names[i], names[(i + 1) % len]));
+            }
+            for user in ["Aa ::= @P { NULL }", "Zz ::= SEQUENCE OF @P { BOOLEAN }", "Aa ::= SEQUENCE { COMPONENTS OF @P { NULL } }"] {
+                out.push(format!("Cyc-Mod DEFINITIONS AUTOMATIC TAGS ::= BEGIN\n{body}{}\nEND\n", user.replace("@P", names[0])));
+            }
+        }
+    }
+    out
+}
+
 pub fn gen_inputs(cfg: &RunCfg) -> Vec<(String, String)> {
     let mut rng = Rng::new(cfg.seed ^ 0xC08);
     let mut out: Vec<(String, String)> = Vec::new();
@@ -260,6 +340,41 @@ pub fn gen_inputs(cfg: &RunCfg) -> Vec<(String, String)> {
     }
     for c in CYCLES {
         out.push(("cycle".into(), c.to_string()));
+    }
+    for c in cycle_family() {
+        out.push(("cycle-family".into(), c));
+    }
+    // (1b) growth: chains of 40 definitions each mentioning the next one more than once, in every notation that
+    // can do so; names ascending and descending (the linker walks names in order); ending in a leaf or closing a
+    // cycle. A traversal that follows every *path* instead of every definition needs 2^40 steps: the watchdog
+    // reports it as a hang
+    let chain_forms: [&str; 8] = [
+        "SEQUENCE { a @N, b @N }",
+        "SET { a @N, b @N OPTIONAL, c @N OPTIONAL }",
+        "CHOICE { a @N, b @N }",
+        "SEQUENCE { a @N OPTIONAL, b SEQUENCE OF @N, c SET OF @N }",
+        "SEQUENCE { a SEQUENCE { x @N, y @N }, b @N }",
+        "CHOICE { a @N, b SET { c @N, d CHOICE { e @N, f NULL } } }",
+        "SEQUENCE { a [0] @N, b [1] EXPLICIT @N, ..., c @N OPTIONAL }",
+        "SEQUENCE { a @N (WITH COMPONENTS { ... }) OPTIONAL, b @N DEFAULT { }, c @N }",
+    ];
+    for (fi, form) in chain_forms.iter().enumerate() {
+        for descending in [false, true] {
+            for closed in [false, true] {
+                let n = 40usize;
+                let name = |i: usize| if descending { format!("Ch{:02}", n - i) } else { format!("Ch{:02}", i) };
+                let mut body = String::new();
+                for i in 0..n {
+                    body.push_str(&format!("{} ::= {}\n", name(i), form.replace("@N", &name(i + 1))));
+                }
+                if closed {
+                    body.push_str(&format!("{} ::= SEQUENCE {{ back {} OPTIONAL, again {} OPTIONAL }}\n", name(n), name(0), name(n / 2)));
+                } else {
+                    body.push_str(&format!("{} ::= INTEGER (0..7)\n", name(n)));
+                }
+                out.push((format!("growth:form{fi}"), format!("Grow-Mod DEFINITIONS AUTOMATIC TAGS ::= BEGIN\n{body}END\n")));
+            }
+        }
     }
     for tail in ["/*", "/* open", "/* a /* b */", "--", "-- open", "\"open", "'0101", "'AB'", "/* ü", "/* 語", "-- ü", "\"ü", "{", "((", "[[", "::=", "&", "@", "."] {
         out.push(("open-at-eof".into(), format!("M DEFINITIONS ::= BEGIN\nA ::= INTEGER {tail}")));
